@@ -103,8 +103,8 @@ def gen_model(rng, idx):
         spec["equations"].append([["v", "same_" + tgt], ["v", tgt]])
         spec["aliases"].append(["same_" + tgt, tgt, 1])
         spec["outputs"].append("same_" + tgt)
-    if rng.random() < 0.25 and not spec["delays"]:
-        spec["rootfinder"] = rng.choice(["fast_newton", "newton"])
+    # (other rootfinder plugins are only used in the unsolvable-step probe: their convergence on badly
+    #  scaled but solvable steps is CasADi's business, not this property's)
     series = {}
     for u in inputs:
         series[u] = [str(dyc(-4, 4)) for _ in range(nsteps + 1)]
@@ -278,7 +278,7 @@ def run(ctx):
     if replay:
         specs = [json.load(open(replay))["replay"]["spec"]]
     else:
-        specs = [c["spec"] for c in core.corpus_cases(ID)] + [gen_model(ctx.rng, i) for i in range(ctx.n(8, 400))]
+        specs = [c["spec"] for c in core.corpus_cases(ID)] + [gen_model(ctx.rng, i) for i in range(ctx.n(16, 400))]
     with ProcessPoolExecutor(max_workers=8) as ex:
         results = list(ex.map(safe_run, specs))
         unsolv = [ex.submit(run_unsolvable, rf).result() for rf in (None, "fast_newton", "newton")] if not replay else []
